@@ -455,6 +455,13 @@ impl BitVector {
                     self.blocks[last_block_index] &= mask;
                 }
             }
+
+            // Keep the invariant "bits between len and capacity are 0" (relied upon by
+            // fast_ensure_set1 and by every consumer of blocks()): clear the words after the new last one.
+            let first_unused = (new_len + BITS_PER_BLOCK - 1) / BITS_PER_BLOCK;
+            for i in first_unused..self.blocks.len() {
+                self.blocks[i] = 0;
+            }
         }
 
         Ok(())
